@@ -51,6 +51,8 @@ def stepOp (f : Fam) (x : Obj) (op : String) : Obj × String :=
     | .error e => (x, errName e)
   match op.splitOn ":" with
   | ["show"] => (x, showObj f x)
+  -- `hash`: "the hash of the object equals that of a freshly built equal object" — always so in the model (`C13.eq_hash`)
+  | ["hash"] => (x, "h1")
   | ["goff"] => (x, match getOffset f x with
       | .ok k => toString k
       | .error e => errName e)
